@@ -1,11 +1,12 @@
 from __future__ import annotations
 
+from itertools import combinations
 from typing import TYPE_CHECKING, cast
 
 import numpy as np
 import numpy.typing as npt
 
-from geometer.base import EQ_TOL_ABS, EQ_TOL_REL, LeviCivitaTensor, TensorDiagram
+from geometer.base import EQ_TOL_ABS, EQ_TOL_REL
 from geometer.curve import absolute_conic
 from geometer.exceptions import NotCollinear, NotConcurrent
 from geometer.point import (
@@ -460,18 +461,16 @@ def is_coplanar(*args: PointTensor | LineTensor, tol: float = EQ_TOL_ABS) -> npt
 
     """
     n = args[0].dim + 1
-    result = np.isclose(det(np.stack(np.broadcast_arrays(*[a.array for a in args[:n]]), axis=-2)), 0, atol=tol)
-    if not np.any(result) or len(args) == n:
-        return result
-    covariant = args[0].tensor_shape[1] > 0
-    e = LeviCivitaTensor(n, covariant=covariant)
-    diagram = TensorDiagram(*[(e, a) if covariant else (a, e) for a in args[: n - 1]])
-    tensor = diagram.calculate()
-    for t in args[n:]:
-        x = t * tensor if covariant else tensor * t
-        result &= np.isclose(x.array, 0, atol=tol)
+    arrays = np.broadcast_arrays(*[a.array for a in args])
+    result = np.isclose(det(np.stack(arrays[:n], axis=-2)), 0, atol=tol)
+    # the objects lie in a common hyperplane if every choice of n of them does (the first n - 1 objects do not have
+    # to span the hyperplane, e.g. when an object is given twice)
+    for indices in combinations(range(len(args)), n):
+        if indices == tuple(range(n)):
+            continue
         if not np.any(result):
             break
+        result = result & np.isclose(det(np.stack([arrays[i] for i in indices], axis=-2)), 0, atol=tol)
     return result
 
 
